@@ -86,14 +86,21 @@ def Adds {β} (esL : List (List β)) (x y : Nat) (o o' : IO β) : Prop :=
   o'.outI = o.outI ++ runSums o.accum (slice esL x y) ∧
   o'.outV = o.outV ++ (slice esL x y).flatten
 
+/-- the D5 error at the level of the stored field: raised, and only because some mapped entry exceeds the buffer -/
+def OversizeE {β} (E : List (List β)) (map_ : List Int) (inv : Int) (cap : Nat) (e : Err) : Prop :=
+  e = .valueError "entry does not fit the value buffer" ∧
+  ∃ (p : Nat) (k : Int) (x : List β), map_[p]? = some k ∧ k ≠ inv ∧ 0 ≤ k ∧ E[k.toNat]? = some x ∧ cap < x.length
+
 theorem indexedSubBody_spec {β} (indices : List Int) (values : List β) (map_ : List Int) (inv : Int) (cs vf : Nat)
     (sS sE : Nat) (o : IO β) (esL : List (List β))
     (hok : IndexedOK indices values) (hse : sS < sE) (hsE : sE ≤ map_.length) (hcs : map_.length ≤ cs)
     (hesLen : esL.length = map_.length)
     (hr : InRange (entries indices values).length map_ inv) (hm : ValidMonotone map_ inv)
-    (hes : ∀ (p : Nat) (k : Int), map_[p]? = some k → esL[p]? = lookup (entries indices values) inv [] k)
-    (hcap : ∀ e ∈ entries indices values, e.length ≤ cs * vf) :
-    ∃ o', indexedSubBody indices values map_ inv cs vf (sS, sE) o = .ok o' ∧ Adds esL sS sE o o' := by
+    (hes : ∀ (p : Nat) (k : Int), map_[p]? = some k → esL[p]? = lookup (entries indices values) inv [] k) :
+    (∃ o', indexedSubBody indices values map_ inv cs vf (sS, sE) o = .ok o' ∧ Adds esL sS sE o o' ∧
+      ∀ x ∈ slice esL sS sE, x.length ≤ cs * vf) ∨
+    (∃ e, indexedSubBody indices values map_ inv cs vf (sS, sE) o = .error e ∧
+      OversizeE (entries indices values) map_ inv (cs * vf) e) := by
   obtain ⟨d, hd, hcase⟩ := extents_spec map_ sS sE inv hse hsE
   rcases hcase with ⟨hinv, hall⟩ | ⟨hne, hne2, p0, p1, hp0, hp01, hp1, hm0, hm1, hbetween⟩
   · -- every entry is the marker: `sE - sS` copies of the current offset
@@ -111,12 +118,14 @@ theorem indexedSubBody_spec {β} (indices : List Int) (values : List β) (map_ :
       · simp at hjx'
     obtain ⟨g1, g2, g3⟩ := runSums_all_nil o.accum (slice esL sS sE) hnil
     have hlen : (slice esL sS sE).length = sE - sS := slice_length_le _ _ _ (by omega)
-    refine ⟨{ o with outI := o.outI ++ List.replicate (min (sE - sS) cs) o.accum }, ?_, ?_, ?_, ?_⟩
+    refine Or.inl ⟨{ o with outI := o.outI ++ List.replicate (min (sE - sS) cs) o.accum }, ?_, ⟨?_, ?_, ?_⟩, ?_⟩
     · simp only [indexedSubBody, hd, hinv, beq_self_eq_true, if_true]
     · simp only [g2]; omega
     · have : min (sE - sS) cs = sE - sS := by omega
       simp only [g1, hlen, this]
     · simp only [g3, List.append_nil]
+    · intro x hx
+      rw [hnil x hx]; simp
   · have hne' : (d.1 == inv) = false := by simpa using hne
     obtain ⟨hf0, hfn⟩ := hr p0 d.1 hm0 hne
     obtain ⟨hl0, hln⟩ := hr p1 d.2 hm1 hne2
@@ -141,7 +150,20 @@ theorem indexedSubBody_spec {β} (indices : List Int) (values : List β) (map_ :
     have hgy : ix[y0]? = some ix[y0] := List.getElem?_eq_getElem (by omega)
     have hvw := valueWindow_spec ix values (0, y0) ix[0] ix[y0] hwok (by simp only []; omega) hg0 hgy
     have hgs : getE subs 0 "sub_chunks[0]" = .ok (0, y0) := by simp [getE, hy0]
-    obtain ⟨w, hrun, hacc, hoI, hoV⟩ := innerLoop_spec map_ sS sE ix values subs d.1 (N0 + 1) cs (cs * vf) inv esL
+    have hwe : ∀ (p : Nat) (k : Int), sS ≤ p → p < sE → map_[p]? = some k → k ≠ inv →
+        0 ≤ k ∧ (entries indices values)[k.toNat]? = some (wentry ix values (k - d.1).toNat) := by
+      intro p k hp1' hp2' hpk hki
+      obtain ⟨b1, b2⟩ := hbetween p k hp1' hp2' hpk hki
+      have c1 := hm p0 p d.1 k b1 hm0 hpk hne hki
+      have c2 := hm p p1 k d.2 b2 hpk hm1 hki hne2
+      have hk0 : 0 ≤ k := by omega
+      have hj : (k - d.1).toNat < N0 + 1 := by omega
+      have := wentry_window indices values d.1.toNat (N0 + 1) (k - d.1).toNat hj hwinlen
+      rw [hixdef] at this
+      have hkk : d.1.toNat + (k - d.1).toNat = k.toNat := by omega
+      rw [hkk] at this
+      exact ⟨hk0, this⟩
+    have hloop := innerLoop_spec map_ sS sE ix values subs d.1 (N0 + 1) cs (cs * vf) inv esL
       o.accum o.outI o.outV hwok hixlen htiles hsE (by omega) (by omega)
       (by
         intro p k hp1' hp2' hpk hki
@@ -155,24 +177,16 @@ theorem indexedSubBody_spec {β} (indices : List Int) (values : List β) (map_ :
         rw [hes p k hpk]
         by_cases hki : k = inv
         · simp [lookup, hki]
-        · obtain ⟨b1, b2⟩ := hbetween p k hp1' hp2' hpk hki
-          have c1 := hm p0 p d.1 k b1 hm0 hpk hne hki
-          have c2 := hm p p1 k d.2 b2 hpk hm1 hki hne2
-          have hk0 : 0 ≤ k := by omega
-          have hj : (k - d.1).toNat < N0 + 1 := by omega
-          have := wentry_window indices values d.1.toNat (N0 + 1) (k - d.1).toNat hj hwinlen
-          rw [hixdef] at this
-          have hkk : d.1.toNat + (k - d.1).toNat = k.toNat := by omega
-          rw [hkk] at this
-          simp [lookup, hki, hk0, this])
-      (by
-        intro j hj
-        have := wentry_window indices values d.1.toNat (N0 + 1) j hj hwinlen
-        rw [hixdef] at this
-        exact hcap _ (List.mem_of_getElem? this))
+        · obtain ⟨hk0, hent⟩ := hwe p k hp1' hp2' hpk hki
+          simp [lookup, hki, hk0, hent])
       (0, y0) (slice values ix[0].toNat ix[y0].toNat) (by omega) hy0 rfl ⟨ix[0], ix[y0], hg0, hgy, rfl⟩
-    refine ⟨⟨w.accum, w.outI, w.outV⟩, ?_, hacc, hoI, hoV⟩
-    simp only [indexedSubBody, hd, hne', hix, hN, hsubs, hgs, hvw, hrun]
-    simp
+    rcases hloop with ⟨w, hrun, hacc, hoI, hoV, hfit⟩ | ⟨e, hrun, herr, p, k, hp1', hp2', hpk, hki, hbig⟩
+    · refine Or.inl ⟨⟨w.accum, w.outI, w.outV⟩, ?_, ⟨hacc, hoI, hoV⟩, hfit⟩
+      simp only [indexedSubBody, hd, hne', hix, hN, hsubs, hgs, hvw, hrun]
+      simp
+    · obtain ⟨hk0, hent⟩ := hwe p k hp1' hp2' hpk hki
+      refine Or.inr ⟨e, ?_, herr, p, k, _, hpk, hki, hk0, hent, hbig⟩
+      simp only [indexedSubBody, hd, hne', hix, hN, hsubs, hgs, hvw, hrun]
+      simp
 
 end Exetera.MapValid
